@@ -1312,6 +1312,18 @@ func checkTokenize(c *Ctx) {
 		}
 	}
 	c.Check(okField, "R12.8", "tokenize:every-field", w.InstrPos(split2), "each field of the first split is split into chunks", "what is split into chunks is not a field of the query")
+	// a field that starts or ends with the chunk separator is refused (the splitter drops the empty chunk silently)
+	field := split2.Common().Args[0]
+	okEdge := map[string]bool{}
+	for _, pg := range predGuards(tk, nil) {
+		if (pg.Name == "strings.HasPrefix" || pg.Name == "strings.HasSuffix") && pg.FailsWhen {
+			a := pg.Call.Common().Args
+			if s, isS := constString(a[1]); isS && s == ":" && a[0] == field {
+				okEdge[pg.Name] = true
+			}
+		}
+	}
+	c.Check(okEdge["strings.HasPrefix"] && okEdge["strings.HasSuffix"], "R12.8", "tokenize:dangling-colon-refused", w.InstrPos(split2), "a field starting or ending with ':' is an error", "a field that starts or ends with ':' is not refused (the test is missing or looks at another string than the field): 'author: rene' silently becomes two search terms and the intended filter is dropped")
 	var chunks ssa.Value
 	for _, v := range resultValues(split2, 0) {
 		chunks = v
